@@ -215,7 +215,11 @@ type KnownFinding struct {
 
 func LoadKnownFindings() []KnownFinding {
 	var out []KnownFinding
-	b, err := os.ReadFile(filepath.Join(VerifDir, "known_findings.json"))
+	path := filepath.Join(VerifDir, "known_findings.json")
+	if p := os.Getenv("VERIF_KNOWN"); p != "" {
+		path = p
+	}
+	b, err := os.ReadFile(path)
 	if err != nil {
 		return nil
 	}
